@@ -1,7 +1,7 @@
-(** C02 — string lemmas: trimming is idempotent, splitting a value without
-    CRLF, header lookup. *)
+(** C02 — string lemmas: trimming (idempotent; trimming by a smaller set first
+    does not matter), split/join, header lookup, what [hdr_store] keeps. *)
 From Coq Require Import String Ascii List Bool Arith NArith ZArith Lia.
-From Raven Require Import Base.GoStr Base.GoStrMime Spec.Mime Model.MimeHeaders Model.MimeStore.
+From Raven Require Import Base.GoStr Base.GoStrFacts Base.GoStrMime Spec.Mime Model.MimeHeaders Model.MimeStore.
 Import ListNotations.
 
 Lemma dw_idem f s : drop_while f (drop_while f s) = drop_while f s.
@@ -22,6 +22,28 @@ Lemma dw_head f s :
 Proof.
   induction s as [|a s IH]; simpl; [now left|].
   destruct (f a) eqn:E; [exact IH|]. right. now exists a, s.
+Qed.
+
+Lemma dw_app f A B :
+  drop_while f (A ++ B) = if forallb f A then drop_while f B else drop_while f A ++ B.
+Proof.
+  induction A as [|a A IH]; simpl; [reflexivity|].
+  destruct (f a); simpl; [exact IH | reflexivity].
+Qed.
+
+Lemma dw_all f A : forallb f A = true -> drop_while f A = [].
+Proof.
+  induction A as [|a A IH]; simpl; [reflexivity|].
+  destruct (f a); simpl; [exact IH | discriminate].
+Qed.
+
+(** the appended text is empty or starts with an octet that is kept *)
+Lemma dw_app_stop f A R :
+  (R = [] \/ exists c R', R = c :: R' /\ f c = false) ->
+  drop_while f (A ++ R) = drop_while f A ++ R.
+Proof.
+  intros H. rewrite dw_app. destruct (forallb f A) eqn:E; [|reflexivity].
+  rewrite (dw_all f A E). destruct H as [-> | (c & R' & -> & Hc)]; simpl; [reflexivity|now rewrite Hc].
 Qed.
 
 Lemma trim_right_idem f s : trim_right_f f (trim_right_f f s) = trim_right_f f s.
@@ -49,32 +71,128 @@ Proof. apply trim_f_idem. Qed.
 Lemma trim_space_sp s : trim_space (S_ " " ++ s) = trim_space s.
 Proof. reflexivity. Qed.
 
-(** a value without CRLF is one line *)
-Lemma split_aux_none sep : forall fuel s cur,
-  index s sep = None -> split_aux fuel s sep cur = [rev cur ++ s].
+Section Sub.
+Variables f g : ascii -> bool.
+Hypothesis sub : forall c, f c = true -> g c = true.
+
+Lemma dw_sub s : drop_while g (drop_while f s) = drop_while g s.
 Proof.
-  induction fuel as [|f IH]; intros s cur H; simpl; [reflexivity|].
-  destruct s as [|c s'].
-  - now rewrite app_nil_r.
-  - simpl in H. destruct (has_prefix (c :: s') sep) eqn:P; [discriminate|].
-    destruct (index s' sep) eqn:I; [discriminate|].
-    rewrite (IH s' (c :: cur) I). simpl. now rewrite <- app_assoc.
+  induction s as [|a s IH]; simpl; [reflexivity|].
+  destruct (f a) eqn:E.
+  - rewrite (sub a E). exact IH.
+  - reflexivity.
 Qed.
 
-Lemma split_no_fold v : has_fold v = false -> split v crlf = [v].
+Lemma trf_sub s : trim_right_f g (trim_right_f f s) = trim_right_f g s.
+Proof. unfold trim_right_f. now rewrite rev_involutive, dw_sub. Qed.
+End Sub.
+
+(** left and right trimming commute *)
+Lemma trf_dw_comm g x : trim_right_f g (drop_while g x) = drop_while g (trim_right_f g x).
 Proof.
-  unfold has_fold, contains, split. intros H.
-  destruct (index v crlf) eqn:I; [discriminate|].
-  now rewrite (split_aux_none crlf _ v [] I).
+  induction x as [|c x IH]; [reflexivity|].
+  destruct (g c) eqn:E.
+  - simpl drop_while at 1. rewrite E.
+    unfold trim_right_f at 2. simpl rev. rewrite dw_app.
+    destruct (forallb g (rev x)) eqn:A.
+    + simpl. rewrite E. simpl.
+      assert (X : drop_while g x = []).
+      { apply dw_all. rewrite <- (rev_involutive x). rewrite forallb_forall in *.
+        intros y Hy. apply A. now apply in_rev in Hy. }
+      rewrite X. reflexivity.
+    + rewrite rev_app_distr. simpl. rewrite E. exact IH.
+  - simpl drop_while at 1. rewrite E.
+    rewrite (trim_right_cons g c x E). simpl. now rewrite E.
 Qed.
 
-Lemma hdr_store_no_fold n v : has_fold v = false -> hdr_store (n, v) = (trim_space n, trim_space v).
+Lemma trim_after_smaller (f1 f2 g : ascii -> bool) s :
+  (forall c, f1 c = true -> g c = true) -> (forall c, f2 c = true -> g c = true) ->
+  trim_f g (trim_right_f f2 (drop_while f1 s)) = trim_f g s.
 Proof.
-  intros H. unfold hdr_store. simpl. rewrite (split_no_fold v H). simpl. now rewrite app_nil_r.
+  intros S1 S2. unfold trim_f, trim_left_f.
+  rewrite trf_dw_comm, (trf_sub f2 g S2), <- trf_dw_comm, (dw_sub f1 g S1). reflexivity.
 Qed.
+
+(** ---- strings.Split / Join *)
+Lemma split_aux_nonempty sep : forall fuel s cur, split_aux fuel s sep cur <> [].
+Proof.
+  induction fuel as [|f IH]; intros s cur; simpl; [discriminate|].
+  destruct s as [|c s']; [discriminate|].
+  destruct (has_prefix (c :: s') sep); [discriminate | apply IH].
+Qed.
+
+Lemma join_split_aux sep : forall fuel s cur, join (split_aux fuel s sep cur) sep = rev cur ++ s.
+Proof.
+  induction fuel as [|f IH]; intros s cur; simpl split_aux.
+  - reflexivity.
+  - destruct s as [|c s'].
+    + simpl. now rewrite app_nil_r.
+    + destruct (has_prefix (c :: s') sep) eqn:P.
+      * apply has_prefix_spec in P as [r E].
+        assert (SK : skipn (length sep) (c :: s') = r).
+        { rewrite E. rewrite skipn_app, Nat.sub_diag, skipn_all. reflexivity. }
+        rewrite SK.
+        pose proof (IH r []) as J. pose proof (split_aux_nonempty sep f r []) as NE.
+        destruct (split_aux f r sep []) as [|y l] eqn:Q; [congruence|].
+        change (join (rev cur :: y :: l) sep) with (rev cur ++ sep ++ join (y :: l) sep).
+        rewrite J. simpl. now rewrite E.
+      * rewrite IH. simpl. now rewrite <- app_assoc.
+Qed.
+
+Lemma join_split v sep : join (split v sep) sep = v.
+Proof. unfold split. now rewrite join_split_aux. Qed.
+
+Lemma join_cons_flat sep : forall ls l0, join (l0 :: ls) sep = l0 ++ flat_map (fun l => sep ++ l) ls.
+Proof.
+  induction ls as [|l1 ls IH]; intros l0.
+  - simpl. now rewrite app_nil_r.
+  - change (join (l0 :: l1 :: ls) sep) with (l0 ++ sep ++ join (l1 :: ls) sep).
+    rewrite IH. simpl. now rewrite <- app_assoc.
+Qed.
+
+(** ---- what extractAllHeaders keeps of one field *)
+Lemma sp_tab_is_space c : is_sp_tab c = true -> is_space c = true.
+Proof.
+  revert c. intros c H.
+  assert (K : implb (is_sp_tab c) (is_space c) = true).
+  { revert c H. intros c _. revert c. ascii_sweep (fun c => implb (is_sp_tab c) (is_space c)). }
+  rewrite H in K. exact K.
+Qed.
+
+Lemma ws4_is_space c : in_set ws4 c = true -> is_space c = true.
+Proof.
+  intros H.
+  assert (K : implb (in_set ws4 c) (is_space c) = true).
+  { revert c H. intros c _. revert c. ascii_sweep (fun c => implb (in_set ws4 c) (is_space c)). }
+  rewrite H in K. exact K.
+Qed.
+
+Lemma hdr_store_value n v : trim_space (snd (hdr_store (n, v))) = trim_space v.
+Proof.
+  unfold hdr_store. cbn [snd fst].
+  pose proof (join_split v crlf) as J.
+  destruct (split v crlf) as [|l0 ls] eqn:Q.
+  - simpl in J. now subst v.
+  - cbn [snd]. rewrite join_cons_flat in J.
+    unfold save_value, trim_right, trim_left_f.
+    rewrite <- (dw_app_stop is_sp_tab l0 (flat_map (fun l => crlf ++ l) ls)).
+    + rewrite J. apply trim_after_smaller; [apply sp_tab_is_space | apply ws4_is_space].
+    + destruct ls as [|l1 ls']; [now left|]. right. simpl. eexists _, _. split; [reflexivity|]. reflexivity.
+Qed.
+
+Lemma fst_hdr_store h : fst (hdr_store h) = trim_space (fst h).
+Proof. unfold hdr_store. destruct (split (snd h) crlf); reflexivity. Qed.
 
 Lemma is_ct_name_trim n : is_ct_name (trim_space n) = is_ct_name n.
 Proof. unfold is_ct_name. now rewrite trim_space_idem. Qed.
 
-Lemma fst_hdr_store h : fst (hdr_store h) = trim_space (fst h).
-Proof. unfold hdr_store. destruct (split (snd h) crlf); reflexivity. Qed.
+Lemma is_cte_name_trim n : is_cte_name (trim_space n) = is_cte_name n.
+Proof. unfold is_cte_name. now rewrite trim_space_idem. Qed.
+
+(** every field keeps its name and value up to surrounding white space *)
+Lemma hdr_kept h : hdr_eqv h (out_hdr (hdr_store h)) = true.
+Proof.
+  destruct h as [n v]. unfold hdr_eqv, out_hdr. cbn [fst snd].
+  rewrite fst_hdr_store. cbn [fst]. rewrite trim_space_sp, hdr_store_value, trim_space_idem, !str_eqb_refl.
+  reflexivity.
+Qed.
